@@ -111,7 +111,21 @@ def lean_module_files(modules):
     return seen
 
 
-def lean_build_and_audit(prop_id, modules, theorems, clean=False, leanchecker=False):
+def driver_imports(driver):
+    """Pfb.* modules imported by Driver/<driver>.lean: they must be built before `lean --run`."""
+    if not driver:
+        return []
+    path = os.path.join(LEAN_DIR, "Driver", driver + ".lean")
+    out = []
+    if os.path.exists(path):
+        for line in open(path):
+            mm = re.match(r"\s*import\s+(Pfb[\w.]*)", line)
+            if mm:
+                out.append(mm.group(1))
+    return out
+
+
+def lean_build_and_audit(prop_id, modules, theorems, clean=False, leanchecker=False, extra_build=()):
     """
     Returns dict(ok, obligations, discharged, problems[], axioms{thm: [...]}).
     A problem never is a verdict by itself (see run_check).
@@ -122,7 +136,8 @@ def lean_build_and_audit(prop_id, modules, theorems, clean=False, leanchecker=Fa
         shutil.rmtree(os.path.join(LEAN_DIR, ".lake", "build"), ignore_errors=True)
     t0 = time.time()
     try:
-        p = _run(["lake", "build"] + list(modules), cwd=LEAN_DIR, timeout=1500)
+        p = _run(["lake", "build"] + list(modules) + [m for m in extra_build if m not in modules],
+                 cwd=LEAN_DIR, timeout=1500)
     except subprocess.TimeoutExpired:
         res["ok"] = False
         res["problems"].append("lake build timed out")
@@ -410,7 +425,7 @@ def run_check(prop: Prop, tier="quick", replay=None):
     # ---- T: proofs ---------------------------------------------------------
     thorough = tier == "thorough"
     T = lean_build_and_audit(prop.id, prop.lean_modules + [], prop.theorems,
-                             clean=False, leanchecker=thorough)
+                             clean=False, leanchecker=thorough, extra_build=driver_imports(prop.driver))
     # ---- fingerprints -------------------------------------------------------
     fp = fingerprint(prop.anchors)
     lock = load_lock().get(prop.id, {})
